@@ -8,7 +8,7 @@
 (*          s |-> snapshot of the shared state when the event was logged]. *)
 (* Roles: main, L (loader thread), cbL (its callback thread), W (worker    *)
 (* process), cbW (its callback thread).  Purely local steps of the code    *)
-(* (LoaderPull, LoaderPillCheck, MainRest) are not logged: they are        *)
+(* (LoaderPull, LoaderPillCheck) are not logged: they are        *)
 (* composed as silent steps, which cannot run away because each only moves *)
 (* one control point forward.                                              *)
 (***************************************************************************)
@@ -33,6 +33,8 @@ SnapPost == Ev.s.ninq = Len(inq') /\ Ev.s.nout = Len(outq') /\ Ev.s.np = nProcs'
 
 TrEvent ==
   \/ Ev.r = "main" /\ Ev.e = "start"   /\ SnapPre /\ MainStart
+  \/ Ev.r = "main" /\ Ev.e = "pstart"  /\ SnapPre /\ (MainStartFirst \/ MainRestOne)
+  \/ Ev.r = "cbW"  /\ Ev.e = "pstart"  /\ SnapPre /\ CbStart(Ev.w)
   \/ Ev.r = "main" /\ Ev.e = "waited"  /\ SnapPre /\ MainWait
   \/ Ev.r = "main" /\ Ev.e = "get"     /\ SnapPre /\ outq # <<>> /\ Head(outq) = Ev.x /\ MainGet
   \/ Ev.r = "main" /\ Ev.e = "abandon" /\ SnapPre /\ MainAbandon
@@ -45,7 +47,7 @@ TrEvent ==
   \/ Ev.r = "W"    /\ Ev.e = "put"     /\ SnapPre /\ wcur[Ev.w] = Ev.x /\ WorkerOut(Ev.w)
   \/ Ev.r = "cbW"  /\ Ev.e = "join"    /\ SnapPre /\ Callback(Ev.w)
   \/ Ev.r = "cbW"  /\ Ev.e = "put"     /\ SnapPre /\ Ev.x = Pill /\ CbPutPoison(Ev.w)
-Silent == LoaderPull \/ LoaderPillCheck \/ MainRest
+Silent == LoaderPull \/ LoaderPillCheck
 
 TraceNext == /\ l <= Len(Evs)
              /\ \/ TrEvent /\ l' = l + 1
